@@ -47,7 +47,8 @@ Section Merge.
   Hypothesis Hwv : w <> v.
   Hypothesis Hwhome : (home w < F)%nat.
   Hypothesis Hnd : ~ In v l'.
-  Hypothesis Hpu : forall u, In u l' -> vd st u = 0 -> vn st u = vn st v -> u = v.
+  Hypothesis Hpu : forall u, In u l' -> vd st u = 0 -> vn st u = vn st v -> argp st home u = argp st home v -> u = v.
+  Hypothesis Hi : nth_error (sundeclared (sc_of st F)) i = Some v.
 
   Let st1 := merge_into st v w.
   Let st2 := sset st1 F (set_undeclared (sc_of st1 F) (list_set (sundeclared (sc_of st1 F)) i w)).
@@ -116,6 +117,13 @@ Section Merge.
   Lemma mg_v_not_decl q : (q < nscopes st)%nat -> ~ In v (sdeclared (sc_of st q)).
   Proof. intros Hq H. destruct (I_decl _ _ _ _ _ I q v Hq H) as (_ & D & _). contradiction. Qed.
 
+  Lemma mg_argp u : u <> v -> argp st2 home u = argp st home u.
+  Proof.
+    intros Hu. unfold argp. destruct (Nat.eq_dec (home u) F) as [E|E]; [|rewrite mg_sc by exact E; reflexivity].
+    rewrite E, mg_sc_F. unfold und_args. cbn [narguses sundeclared set_undeclared]. apply existsb_eqb_iff.
+    apply (in_firstn_list_set _ i _ w v u Hi); [|exact Hu]. intros ->. lia.
+  Qed.
+
   Lemma InvS_merge : InvS st2 log stk' home (extraF home F l').
   Proof.
     pose proof I as I'. dI I'.
@@ -145,7 +153,8 @@ Section Merge.
       assert (u <> v) by (intros ->; apply (mg_v_not_und q Hq H)).
       rewrite mg_root_other, mg_vd by assumption. apply Iund; assumption.
     - intros q Hq. rewrite mg_sc by (apply mg_in_stk; exact Hq). apply Iunodup. exact Hq.
-    - intros q v1 v2 Hq. rewrite mg_sc by (apply mg_in_stk; exact Hq). rewrite !mg_vd, !mg_vn. apply Ipuniq. exact Hq.
+    - intros q v1 v2 Hq. rewrite mg_sc by (apply mg_in_stk; exact Hq). rewrite !mg_vd, !mg_vn. intros H1 H2.
+      rewrite (mg_argp v1), (mg_argp v2) by (intros ->; eapply mg_v_not_und; eassumption). apply (Ipuniq q); assumption.
     - intros r. rewrite mg_nvars, mg_vd. intros Hr Rr Dr.
       assert (Hne : r <> v) by (intros ->; apply mg_not_root_v; exact Rr).
       apply mg_root_other in Rr; [|assumption].
@@ -168,9 +177,23 @@ Section Merge.
     - exact mg_nscopes.
   Qed.
 
-  Lemma mg_lab_root u : lab_root st2 home u = lab_root st home u.
+  Lemma mg_lab_root u : u <> v -> lab_root st2 home u = lab_root st home u.
   Proof.
-    unfold lab_root. pose proof (mg_vd u) as Ed. pose proof (mg_vn u) as En. unfold vd, vn in *. rewrite Ed, En. reflexivity.
+    intros Hu. unfold lab_root. pose proof (mg_vd u) as Ed. pose proof (mg_vn u) as En. unfold vd, vn in *. rewrite Ed, En, (mg_argp u Hu). reflexivity.
+  Qed.
+
+  (* a root with the label of v is v *)
+  Lemma same_label_v r :
+    (r < nvars st)%nat -> is_root st r -> lab_root st home r = lab_root st home v -> r = v.
+  Proof.
+    intros Hrv Hrr Hlab. unfold lab_root in Hlab. unfold vd in Hvd. rewrite Hvd in Hlab. cbn in Hlab.
+    destruct (Z.eqb_spec (vdecl (vget st r)) 0) as [D|D]; [|destruct (argp st home v); discriminate].
+    assert (Hargs : argp st home r = argp st home v /\ home r = home v /\ vname (vget st r) = vname (vget st v)).
+    { destruct (argp st home r), (argp st home v); inversion Hlab; repeat split; reflexivity. }
+    destruct Hargs as (Ea & Hh & Hn).
+    destruct (I_pend_complete _ _ _ _ _ I r Hrv Hrr D) as [[H1 _]|[_ H2]].
+    - rewrite Hh, Hvhome in H1. contradiction.
+    - destruct H2 as [H2|H2]; [symmetry; exact H2|]. apply Hpu; [exact H2|exact D|exact Hn|exact Ea].
   Qed.
 
   Lemma mg_count_gen r (lg : list nat) : r <> v -> (forall u, In u lg -> (u < nvars st)%nat) ->
@@ -218,7 +241,7 @@ Section Merge.
   Qed.
 
   Lemma mg_relabel :
-    map (lab_of st2 home) log = relabel (LPend F (vn st v)) (lab_root st home w) (map (lab_of st home) log).
+    map (lab_of st2 home) log = relabel (lab_root st home v) (lab_root st home w) (map (lab_of st home) log).
   Proof.
     unfold relabel. rewrite map_map. apply map_ext_in. intros u Hu.
     assert (Huv : (u < nvars st)%nat) by (apply (I_log _ _ _ _ _ I); exact Hu).
@@ -226,25 +249,17 @@ Section Merge.
     destruct (root_of_spec st home u (I_links _ _ _ _ _ I) (I_homes _ _ _ _ _ I) Huv) as (n & Hre & _ & Hrv & _).
     pose proof (reach_root _ _ _ _ Hre) as Hrr.
     destruct (Nat.eqb_spec (root_of st u) v) as [E|E].
-    - rewrite mg_lab_root. rewrite E.
-      assert (Elab : lab_root st home v = LPend F (vn st v)).
-      { unfold lab_root. replace (vdecl (vget st v) =? 0) with true by (symmetry; apply Z.eqb_eq; exact Hvd).
-        rewrite Hvhome. reflexivity. }
-      rewrite Elab, label_eqb_refl. reflexivity.
-    - rewrite mg_lab_root. rewrite label_eqb_neq; [reflexivity|].
-      intros Hlab. apply E. unfold lab_root in Hlab.
-      destruct (Z.eqb_spec (vdecl (vget st (root_of st u))) 0) as [D|D]; [|discriminate].
-      inversion Hlab as [[Hh Hn]].
-      destruct (I_pend_complete _ _ _ _ _ I (root_of st u) Hrv Hrr D) as [[H1 _]|[_ H2]].
-      + rewrite Hh in H1. contradiction.
-      + destruct H2 as [H2|H2]; [symmetry; exact H2|]. apply Hpu; [exact H2|exact D|]. unfold vn. exact Hn.
+    - rewrite mg_lab_root by exact Hwv. rewrite E, label_eqb_refl. reflexivity.
+    - rewrite mg_lab_root by exact E. rewrite label_eqb_neq; [reflexivity|].
+      intros Hlab. apply E. apply same_label_v; assumption.
   Qed.
 
   Lemma mg_frame q : In q stk' -> frame_of st2 home q = frame_of st home q.
   Proof.
     intros Hq. unfold frame_of. rewrite mg_sc by (apply mg_in_stk; exact Hq). f_equal.
     - apply map_ext. intros u. unfold nk. pose proof (mg_vd u) as Ed. pose proof (mg_vn u) as En. unfold vd, vn in *. rewrite Ed, En. reflexivity.
-    - apply map_ext. intros u. unfold uent_of. pose proof (mg_vd u) as Ed. pose proof (mg_vn u) as En. unfold vd, vn in *. rewrite Ed, En. reflexivity.
+    - apply map_ext_in. intros u Hu. unfold uent_of. pose proof (mg_vd u) as Ed. pose proof (mg_vn u) as En. unfold vd, vn in *. rewrite Ed, En.
+      rewrite mg_argp; [reflexivity|]. intros ->. apply (mg_v_not_und q Hq Hu).
   Qed.
 
   Lemma merge_all :
@@ -252,13 +267,16 @@ Section Merge.
     nvars st2 = nvars st /\ nscopes st2 = nscopes st /\
     (forall u, vn st2 u = vn st u) /\ (forall u, vd st2 u = vd st u) /\
     (forall u, u <> v -> (is_root st2 u <-> is_root st u)) /\
-    map (lab_of st2 home) log = relabel (LPend F (vn st v)) (lab_root st home w) (map (lab_of st home) log) /\
+    map (lab_of st2 home) log = relabel (lab_root st home v) (lab_root st home w) (map (lab_of st home) log) /\
     (forall q, In q stk' -> frame_of st2 home q = frame_of st home q) /\
-    sparent (sc_of st2 F) = sparent (sc_of st F).
+    sparent (sc_of st2 F) = sparent (sc_of st F) /\
+    (forall u, u <> v -> argp st2 home u = argp st home u) /\
+    narguses (sc_of st2 F) = narguses (sc_of st F) /\
+    sundeclared (sc_of st2 F) = list_set (sundeclared (sc_of st F)) i w.
   Proof.
     split; [exact InvS_merge|]. split; [exact InvU_merge|]. split; [exact mg_nvars|]. split; [exact mg_nscopes|].
     split; [exact mg_vn|]. split; [exact mg_vd|]. split; [exact mg_root_other|]. split; [exact mg_relabel|].
-    split; [exact mg_frame|]. apply mg_fields.
+    split; [exact mg_frame|]. split; [apply mg_fields|]. split; [exact mg_argp|]. rewrite mg_sc_F. split; reflexivity.
   Qed.
 End Merge.
 
@@ -274,9 +292,9 @@ Section Move.
   Hypothesis Hvroot : is_root st v.
   Hypothesis Hvd : vd st v = 0.
   Hypothesis Hvhome : home v = F.
-  Hypothesis Hnone : find (fun u => vname (vget st u) =? vn st v) (sundeclared (sc_of st P)) = None.
+  Hypothesis Hnone : find (und_pred st home (vn st v)) (sundeclared (sc_of st P)) = None.
   Hypothesis Hnd : ~ In v l'.
-  Hypothesis Hpu : forall u, In u l' -> vd st u = 0 -> vn st u = vn st v -> u = v.
+  Hypothesis Hpu : forall u, In u l' -> vd st u = 0 -> vn st u = vn st v -> argp st home u = argp st home v -> u = v.
 
   Let psc := sc_of st P.
   Let st1 := sset st P (set_undeclared psc (sundeclared psc ++ [v])).
@@ -314,6 +332,21 @@ Section Move.
   Lemma mv_v_not_decl q : (q < nscopes st)%nat -> ~ In v (sdeclared (sc_of st q)).
   Proof. intros Hq H. destruct (I_decl _ _ _ _ _ I q v Hq H) as (_ & D & _). contradiction. Qed.
 
+  Lemma mv_args q : und_args (sc_of st1 q) = und_args (sc_of st q).
+  Proof.
+    rewrite mv_sc. destruct (Nat.eqb_spec q P) as [->|]; [|reflexivity].
+    unfold und_args at 1. cbn [narguses sundeclared set_undeclared]. apply und_args_app. apply (I_marks _ _ _ _ _ I P HP).
+  Qed.
+
+  Lemma mv_argp_other u : u <> v -> argp st1 home' u = argp st home u.
+  Proof. intros H. apply argp_ext; [apply mv_home_other; exact H|apply mv_args]. Qed.
+
+  Lemma mv_argp_v : argp st1 home' v = false.
+  Proof.
+    apply (notin_und_args_argp st1 home' P v mv_home_v). rewrite mv_args. intros H. apply in_und_args in H.
+    apply (mv_v_not_und P HP H).
+  Qed.
+
   Lemma InvS_move : InvS st1 log stk' home' (extraF home' F l').
   Proof.
     pose proof mv_P as HPn. pose proof I as I'. dI I'.
@@ -349,12 +382,16 @@ Section Move.
       destruct (Nat.eqb_spec q P) as [->|]; [|apply Iunodup; exact Hq].
       apply nodup_app_last; [apply Iunodup; exact Hq|apply mv_v_not_und; exact Hq].
     - intros q v1 v2 Hq. destruct (mv_fields q) as (_ & _ & _ & _ & _ & ->).
-      destruct (Nat.eqb_spec q P) as [->|]; [|apply Ipuniq; exact Hq].
+      destruct (Nat.eqb_spec q P) as [->|Hne].
+      2:{ intros H1 H2. rewrite (mv_argp_other v1), (mv_argp_other v2) by (intros ->; eapply mv_v_not_und; eassumption).
+          apply (Ipuniq q); assumption. }
       intros H1 H2. apply in_app_last in H1. apply in_app_last in H2.
       destruct H1 as [H1| ->], H2 as [H2| ->].
-      + apply (Ipuniq P); assumption.
-      + intros _ _ E. exfalso. apply (find_none_name st _ _ Hnone v1 H1). exact E.
-      + intros _ _ E. exfalso. apply (find_none_name st _ _ Hnone v2 H2). symmetry. exact E.
+      + rewrite (mv_argp_other v1), (mv_argp_other v2) by (intros ->; eapply mv_v_not_und; eassumption). apply (Ipuniq P); assumption.
+      + rewrite (mv_argp_other v1) by (intros ->; eapply mv_v_not_und; eassumption). rewrite mv_argp_v.
+        intros _ _ E Ea. exfalso. destruct (find_none_und st home _ _ Hnone v1 H1 E) as [_ Ht]. congruence.
+      + rewrite (mv_argp_other v2) by (intros ->; eapply mv_v_not_und; eassumption). rewrite mv_argp_v.
+        intros _ _ E Ea. exfalso. destruct (find_none_und st home _ _ Hnone v2 H2 (eq_sym E)) as [_ Ht]. congruence.
       + reflexivity.
     - intros r Hr Rr Dr. destruct (Nat.eq_dec r v) as [->|Hne].
       + left. rewrite mv_home_v. split; [exact HP|]. destruct (mv_fields P) as (_ & _ & _ & _ & _ & ->).
@@ -367,43 +404,51 @@ Section Move.
       destruct (Nat.eqb_spec q P) as [->|]; [|exact H2]. rewrite len_app_last. unfold psc. lia.
   Qed.
 
+  Lemma mv_same_label_v r :
+    (r < nvars st)%nat -> is_root st r -> lab_root st home r = lab_root st home v -> r = v.
+  Proof.
+    intros Hrv Hrr Hlab. unfold lab_root in Hlab. unfold vd in Hvd. rewrite Hvd in Hlab. cbn in Hlab.
+    destruct (Z.eqb_spec (vdecl (vget st r)) 0) as [D|D]; [|destruct (argp st home v); discriminate].
+    assert (Hargs : argp st home r = argp st home v /\ home r = home v /\ vname (vget st r) = vname (vget st v)).
+    { destruct (argp st home r), (argp st home v); inversion Hlab; repeat split; reflexivity. }
+    destruct Hargs as (Ea & Hh & Hn).
+    destruct (I_pend_complete _ _ _ _ _ I r Hrv Hrr D) as [[H1 _]|[_ H2]].
+    - rewrite Hh, Hvhome in H1. contradiction.
+    - destruct H2 as [H2|H2]; [symmetry; exact H2|]. apply Hpu; [exact H2|exact D|exact Hn|exact Ea].
+  Qed.
+
   Lemma mv_relabel :
-    map (lab_of st1 home') log = relabel (LPend F (vn st v)) (LPend P (vn st v)) (map (lab_of st home) log).
+    map (lab_of st1 home') log = relabel (lab_root st home v) (LPend P (vn st v)) (map (lab_of st home) log).
   Proof.
     unfold relabel. rewrite map_map. apply map_ext_in. intros u Hu.
     assert (Huv : (u < nvars st)%nat) by (apply (I_log _ _ _ _ _ I); exact Hu).
-    unfold lab_of. unfold st1. rewrite root_of_sset.
+    unfold lab_of. unfold st1. rewrite root_of_sset. fold st1.
     destruct (root_of_spec st home u (I_links _ _ _ _ _ I) (I_homes _ _ _ _ _ I) Huv) as (n & Hre & _ & Hrv & _).
     pose proof (reach_root _ _ _ _ Hre) as Hrr.
-    unfold lab_root. change (vget (sset st P (set_undeclared psc (sundeclared psc ++ [v]))) (root_of st u)) with (vget st (root_of st u)).
     destruct (Nat.eq_dec (root_of st u) v) as [E|E].
-    - rewrite E. replace (vdecl (vget st v) =? 0) with true by (symmetry; apply Z.eqb_eq; exact Hvd).
-      rewrite mv_home_v, Hvhome. fold (vn st v). rewrite label_eqb_refl. reflexivity.
-    - rewrite mv_home_other by exact E. rewrite label_eqb_neq; [reflexivity|].
-      intros Hlab. apply E.
-      destruct (Z.eqb_spec (vdecl (vget st (root_of st u))) 0) as [D|D]; [|discriminate].
-      inversion Hlab as [[Hh Hn]].
-      destruct (I_pend_complete _ _ _ _ _ I (root_of st u) Hrv Hrr D) as [[H1 _]|[_ H2]].
-      + rewrite Hh in H1. contradiction.
-      + destruct H2 as [H2|H2]; [symmetry; exact H2|]. apply Hpu; [exact H2|exact D|]. unfold vn. exact Hn.
+    - rewrite E, label_eqb_refl. unfold lab_root. change (vget st1 v) with (vget st v).
+      replace (vdecl (vget st v) =? 0) with true by (symmetry; apply Z.eqb_eq; exact Hvd).
+      rewrite mv_argp_v, mv_home_v. reflexivity.
+    - rewrite label_eqb_neq; [|intros Hlab; apply E; apply mv_same_label_v; assumption].
+      apply lab_root_ext; [reflexivity|reflexivity|apply mv_home_other; exact E|apply mv_args].
   Qed.
 
   Lemma mv_frame_other q : In q stk' -> q <> P -> frame_of st1 home' q = frame_of st home q.
   Proof.
     intros Hq Hne. unfold frame_of. rewrite mv_sc. destruct (Nat.eqb_spec q P) as [|_]; [contradiction|]. f_equal.
     apply map_ext_in. intros u Hu. assert (u <> v) by (intros ->; apply (mv_v_not_und q Hq Hu)).
-    unfold uent_of. change (vget st1 u) with (vget st u). rewrite mv_home_other by assumption. reflexivity.
+    apply uent_of_ext; [reflexivity|reflexivity|apply mv_home_other; assumption|apply mv_args].
   Qed.
 
   Lemma mv_frame_P :
     frame_of st1 home' P = set_fund (frame_of st home P) (fund (frame_of st home P) ++ [UPend (vn st v)]).
   Proof.
-    unfold frame_of, set_fund. cbn [fid fisfunc fdecl fund fnarg]. rewrite mv_sc, Nat.eqb_refl.
-    cbn [sfunc sdeclared sundeclared narguses set_undeclared]. fold psc. f_equal.
+    unfold frame_of, set_fund. cbn [fid fisfunc fdecl fund fnarg fnfor]. rewrite mv_sc, Nat.eqb_refl.
+    cbn [sfunc sdeclared sundeclared narguses nfordecls set_undeclared]. fold psc. f_equal.
     rewrite map_app. f_equal.
     - apply map_ext_in. intros u Hu. assert (u <> v) by (intros ->; apply (mv_v_not_und P HP Hu)).
-      unfold uent_of. change (vget st1 u) with (vget st u). rewrite mv_home_other by assumption. reflexivity.
-    - cbn. unfold uent_of. change (vget st1 v) with (vget st v). unfold vd in Hvd. rewrite Hvd. reflexivity.
+      apply uent_of_ext; [reflexivity|reflexivity|apply mv_home_other; assumption|apply mv_args].
+    - cbn. unfold uent_of. change (vget st1 v) with (vget st v). unfold vd in Hvd. rewrite Hvd. cbn. rewrite mv_argp_v. reflexivity.
   Qed.
 
   Lemma move_all :
@@ -411,13 +456,15 @@ Section Move.
     nvars st1 = nvars st /\ nscopes st1 = nscopes st /\
     (forall u, vget st1 u = vget st u) /\
     (forall u, u <> v -> home' u = home u) /\
-    map (lab_of st1 home') log = relabel (LPend F (vn st v)) (LPend P (vn st v)) (map (lab_of st home) log) /\
+    map (lab_of st1 home') log = relabel (lab_root st home v) (LPend P (vn st v)) (map (lab_of st home) log) /\
     frame_of st1 home' P = set_fund (frame_of st home P) (fund (frame_of st home P) ++ [UPend (vn st v)]) /\
     (forall q, In q stk' -> q <> P -> frame_of st1 home' q = frame_of st home q) /\
-    (forall q, q <> P -> sc_of st1 q = sc_of st q).
+    (forall q, q <> P -> sc_of st1 q = sc_of st q) /\
+    (forall u, u <> v -> argp st1 home' u = argp st home u).
   Proof.
     split; [exact InvS_move|]. split; [apply InvU_sset; exact U|]. split; [reflexivity|]. split; [apply nscopes_sset|].
     split; [reflexivity|]. split; [exact mv_home_other|]. split; [exact mv_relabel|]. split; [exact mv_frame_P|].
-    split; [exact mv_frame_other|]. intros q Hq. rewrite mv_sc. destruct (Nat.eqb_spec q P); [contradiction|reflexivity].
+    split; [exact mv_frame_other|]. split; [|exact mv_argp_other].
+    intros q Hq. rewrite mv_sc. destruct (Nat.eqb_spec q P); [contradiction|reflexivity].
   Qed.
 End Move.
